@@ -37,9 +37,12 @@ TwoTok == <<Right(Str(<<minus>>), Str(<<plus>>))>>
 (* a second mixfix form that extends the first one: "(" E ")" "+"  - among mixfix rows the longest match wins, too *)
 Mixfix2 == <<"mixfix", <<Left(Left(Right(Str(<<lpar>>), Ref("E")), Str(<<rpar>>)), Str(<<plus>>))>>>>
 
+(* a mixfix form that contains an operator table of its own, written inline (two tables in one parse function) *)
+MixfixT == <<"mixfix", <<Left(Right(Str(<<lpar>>), <<"optable", Str(<<one>>), << <<"left", <<Str(<<minus>>)>>>> >> >>), Str(<<rpar>>))>>>>
+
 Rows == {<<as, ops>> : as \in {"left", "right", "infix", "prefix", "postfix"}, ops \in OpsChoices}
         \cup {<<as, TwoTok>> : as \in {"left", "prefix", "postfix"}}
-        \cup {Mixfix, Mixfix2}
+        \cup {Mixfix, Mixfix2, MixfixT}
 
 Operands == << Str(<<one>>),                                   \* literal: cannot partially succeed
                Ref("N"),                                       \* rule reference
@@ -69,7 +72,9 @@ Texts == TextSeqUpTo(<<one, minus, plus>>, IF Tier = "quick" THEN 5 ELSE 6)
                <<minus, semi>>, <<one, plus, semi>>, <<one, plus, plus, one, plus, plus, one>>,
                <<one, minus, one, minus, one, minus, one>>, <<minus, minus, one, plus, plus>>,
                <<lpar, one, rpar, plus, one>>, <<lpar, one, rpar, plus>>, <<lpar, one, rpar, plus, minus, one>>,
-               <<lpar, lpar, one, rpar, plus, rpar, plus, one>>, <<lpar, one, rpar, plus, plus, one>> >>
+               <<lpar, lpar, one, rpar, plus, rpar, plus, one>>, <<lpar, one, rpar, plus, plus, one>>,
+               <<one, plus, one, plus, lpar, one, minus>>, <<one, minus, lpar>>, <<one, plus, one, minus, lpar, rpar>>,
+               <<one, plus, lpar, one, minus, one, rpar, plus>>, <<minus, one, plus, lpar, one, minus, rpar>> >>
 
 TextsShort == TextSeqUpTo(<<one, minus, plus>>, 5)
 
@@ -121,7 +126,7 @@ LawExtends ==
 (* ---- mechanism layer: the shunting-yard machine (PegVM!OTLoop) computes the Pratt-style meaning ---- *)
 \* (tables of three rows are left to the replay: the machine is evaluated on every table of one or two rows)
 \* (the short texts and the hand-picked long ones, in both tiers: all 1 100 texts of the thorough tier cost 8 CPU-hours)
-VMTexts == SelectSeq(Texts, LAMBDA t : Len(t) <= 4 \/ t[1] = lpar \/ Len(t) >= 7)
+VMTexts == SelectSeq(Texts, LAMBDA t : Len(t) <= 4 \/ t[1] = lpar \/ Len(t) >= 7 \/ (Tier = "quick" /\ Len(t) >= 6))
 LawVMRefines ==
     (done /\ Len(rows) <= 2) =>
     \A k \in 1..Len(VMTexts) : VMClauses(G, Table(rows, opk), VMTexts[k]) /\ Refines(G, Ref("start"), VMTexts[k])
